@@ -42,7 +42,8 @@ def emit(report, name, consts, simulate=None, depth=None, seed=None, timeout=300
     table = {}
 
     def on_case(o):
-        table[RA.prefix_key(o["hist"])] = o
+        # observations are kept as compact JSON text (parsed on demand): several times less memory than nested dicts
+        table[RA.prefix_key(o["hist"])] = json.dumps(o["obs"], separators=(",", ":"))
     w, cfg = tlc.make_mc("Autograd", c, invariants=["Emit"])
     res = tlc.run_tlc("Autograd", cfg, workers=workers, wrapper=w, on_case=on_case, simulate=simulate, depth=depth,
                       seed=seed, timeout=timeout, tag=name, keep_out=True)
@@ -50,11 +51,11 @@ def emit(report, name, consts, simulate=None, depth=None, seed=None, timeout=300
     report.tlc(res, name + (" (simulation)" if simulate else " (emission of all behaviours)"))
     # maximal histories = those that are not a proper prefix of another emitted history
     prefixes = set()
-    for o in table.values():
-        h = o["hist"]
+    for k in table:
+        h = json.loads(k)
         if h:
             prefixes.add(RA.prefix_key(h[:-1]))
-    maximal = [o["hist"] for k, o in table.items() if k not in prefixes]
+    maximal = [json.loads(k) for k in table if k not in prefixes]
     import sys
     print("[emit %s] %d behaviours (%d observations), TLC %.1fs" % (name, len(maximal), len(table), res.wall), file=sys.stderr)
     return maximal, table, c
@@ -78,7 +79,7 @@ def _worker(args):
             o = table.get(RA.prefix_key(hist[:i]))
             if o is None:
                 raise core.Machinery("no observation emitted for a prefix (emission incomplete)")
-            return o["obs"]
+            return json.loads(o)
         divs = rp.run(hist, expected, consts["InitLeaves"], consts["LeafVals"], live_check=_G.get("live", False))
         shape_key = "/".join(c["a"] + (":" + c["op"] if c["a"] == "op" else "") for c in hist)
         out.append((idx, shape_key, divs))
